@@ -51,6 +51,14 @@ def run(repo='/repo', tier='quick'):
             found = True
             w = [x for st in f.blocks[b]['stmts'] for x in P.assigns_field(st, 'out_current_consume_offset', '=')]
             ok = any(P.K(x['r']) == 'connp->out_current_read_offset' for x in w)
+            # or through a helper whose every path makes the same assignment (htp_connp_res_clear_buffer)
+            for st in f.blocks[b]['stmts']:
+                for c2 in nodes(st, lambda y: y.get('k') == 'call'):
+                    g = db.fn.get(c2.get('callee') or '')
+                    if g is not None and g.blocks:
+                        ws = [(bb, x) for bb, ii, x in P.field_writes(g, 'out_current_consume_offset') if x.get('op') == '=' and P.K(x['r']) == 'connp->out_current_read_offset']
+                        if ws and any(all(bb in C.dominators(g).get(p_, ()) for p_ in g.preds.get(g.exit, [g.exit])) for bb, x in ws):
+                            ok = True
             res.check(ok, 'C08.c', f.name + ':empty-line-consumed', 'consume_offset = read_offset before continuing',
                       'an empty chunk-length line is not consumed before the loop continues: the next iteration re-parses the same bytes plus one', f.blocks[b]['stmts'][0]['loc'] if f.blocks[b]['stmts'] else f.loc)
     if not found:
